@@ -854,4 +854,121 @@ theorem intLitType_dec (v : Nat) :
 
 theorem Dec.same_refl (d : Dec) : Dec.same d d := ⟨rfl, rfl⟩
 
+/-! ## G. stored constants: conversions along a chain of types -/
+
+theorem intToDbl_isSome (n : Int) (h : InInt32 n) : ∃ b, intToDbl n = some b := by
+  obtain ⟨h1, h2⟩ := h
+  unfold intToDbl
+  by_cases h0 : n.natAbs = 0
+  · exact ⟨0, by simp [h0]⟩
+  · have hlt : n.natAbs < 2 ^ 53 := by omega
+    simp only [h0, hlt, if_true, if_false]
+    exact ⟨_, rfl⟩
+
+theorem convChain_doubles (b : Nat) : ∀ chain : List CTy, (∀ t ∈ chain, t = .double) →
+    convChain chain (.dbl b) = some (.dbl b) := by
+  intro chain
+  induction chain with
+  | nil => intro _; rfl
+  | cons t ts ih =>
+    intro h
+    have ht : t = .double := h t (by simp)
+    subst ht
+    have := ih (fun t' ht' => h t' (by simp [ht']))
+    simp [convChain, convTo, this]
+
+/-- a storable constant converted to `double`: some double `x`, which is numerically the constant -/
+theorem conv_double_storable (c : PyConst) (h : StorableConst c) :
+    ∃ v x, valOf c = some v ∧ convTo .double v = some (.dbl x) ∧ sameNum v (.dbl x) = true := by
+  cases c with
+  | str s => exact absurd h (by simp [StorableConst])
+  | other t => exact absurd h (by simp [StorableConst])
+  | int n =>
+    obtain ⟨b, hb⟩ := intToDbl_isSome n h
+    exact ⟨.int n, b, rfl, by simp [convTo, hb], by simp [sameNum, convTo, hb]⟩
+  | bool b =>
+    exact ⟨.bool b, (if b then 4607182418800017408 else 0), rfl, by simp [convTo], by simp [sameNum, convTo]⟩
+  | float r bits =>
+    cases r with
+    | finite neg ip fp ex => exact ⟨.dbl bits, bits, rfl, by simp [convTo], by simp [sameNum, convTo]⟩
+    | inf b => exact absurd h (by simp [StorableConst])
+    | nan => exact absurd h (by simp [StorableConst])
+
+theorem keptThrough_of_val (c : PyConst) (h : StorableConst c) (v : NVal) (hv : valOf c = some v)
+    (chain : List CTy) :
+    keptThrough c chain = keptVal v chain := by
+  cases c with
+  | str s => exact absurd h (by simp [StorableConst])
+  | other t => simp only [keptThrough, hv]
+  | int n => simp only [keptThrough, hv]
+  | bool b => simp only [keptThrough, hv]
+  | float r bits => simp only [keptThrough, hv]
+
+/-- through any non-empty chain of `double`s a storable constant keeps its value -/
+theorem kept_doubles (c : PyConst) (h : StorableConst c) (chain : List CTy) (hne : chain ≠ [])
+    (hd : ∀ t ∈ chain, t = .double) : keptThrough c chain = true := by
+  obtain ⟨v, x, hv, hc, hs⟩ := conv_double_storable c h
+  cases chain with
+  | nil => exact absurd rfl hne
+  | cons t ts =>
+    have ht : t = .double := hd t (by simp)
+    subst ht
+    have hts := convChain_doubles x ts (fun t' ht' => hd t' (by simp [ht']))
+    rw [keptThrough_of_val c h v hv]
+    simp [keptVal, convChain, hc, hts, hs]
+
+/-- … and into a variable of the type recorded for its own kind -/
+theorem kept_own (c : PyConst) (h : StorableConst c) : keptThrough c [litTy c] = true := by
+  cases c with
+  | str s => exact absurd h (by simp [StorableConst])
+  | other t => exact absurd h (by simp [StorableConst])
+  | int n =>
+    have hf : fitsTy .int n = true := by
+      obtain ⟨h1, h2⟩ := h
+      simp [fitsTy, InInt32, h1, h2]
+    simp [keptThrough, keptVal, valOf, litTy, convChain, convTo, isIntTy, hf, sameNum]
+  | bool b => simp [keptThrough, keptVal, valOf, litTy, convChain, convTo, sameNum]
+  | float r bits =>
+    cases r with
+    | finite neg ip fp ex => simp [keptThrough, keptVal, valOf, litTy, convChain, convTo, sameNum]
+    | inf b => exact absurd h (by simp [StorableConst])
+    | nan => exact absurd h (by simp [StorableConst])
+
+theorem setVarSteps_doubles (src : CTy) : setVarSteps .double src ≠ [] ∧ ∀ t ∈ setVarSteps .double src, t = .double := by
+  unfold setVarSteps
+  by_cases h : src = .double <;> simp [h]
+
+/-- shape of the paths: the constants are the carrier's; inside a conditional every step is a
+`double` and there is at least one; a bare constant has no step before the column -/
+theorem paths_shape : ∀ k : Carrier, ∀ p ∈ k.paths,
+    p.1 ∈ k.consts ∧ (∀ t ∈ p.2, t = .double) ∧
+    (match k with | .const _ => p.2 = [] | .ite _ _ => p.2 ≠ []) := by
+  intro k
+  induction k with
+  | const c =>
+    intro p hp
+    simp [Carrier.paths] at hp
+    subst hp
+    simp [Carrier.consts]
+  | ite a b iha ihb =>
+    intro p hp
+    simp only [Carrier.paths, List.mem_append, List.mem_map] at hp
+    rcases hp with ⟨q, hq, rfl⟩ | ⟨q, hq, rfl⟩
+    · obtain ⟨h1, h2, _⟩ := iha q hq
+      obtain ⟨hne, hall⟩ := setVarSteps_doubles a.ty
+      refine ⟨by simp [Carrier.consts, h1], ?_, ?_⟩
+      · intro t ht
+        rcases List.mem_append.mp ht with h | h
+        · exact h2 t h
+        · exact hall t h
+      · simp [hne]
+    · obtain ⟨h1, h2, _⟩ := ihb q hq
+      obtain ⟨hne, hall⟩ := setVarSteps_doubles b.ty
+      refine ⟨by simp [Carrier.consts, h1], ?_, ?_⟩
+      · intro t ht
+        rcases List.mem_append.mp ht with h | h
+        · exact h2 t h
+        · exact hall t h
+      · simp [hne]
+
 end FaxVerif.C18
